@@ -521,7 +521,7 @@ func (w *cWorld) runConcurrentFrom(progs [][]cOp, yieldSeed uint64, viaRPC bool,
 	if pause != nil {
 		var hooks [8]int32
 		var once sync.Once
-		mon.Yield = func(point string) {
+		mon.SetYield(func(point string) {
 			c, ok := clients.Load(goid())
 			if !ok || c.(int) != pause.Client {
 				return
@@ -537,10 +537,10 @@ func (w *cWorld) runConcurrentFrom(progs [][]cOp, yieldSeed uint64, viaRPC bool,
 				case <-time.After(pause.MaxWait):
 				}
 			})
-		}
+		})
 	} else if yieldSeed != 0 {
 		var n uint64
-		mon.Yield = func(point string) {
+		mon.SetYield(func(point string) {
 			k := atomic.AddUint64(&n, 1)
 			h := Hash(yieldSeed, k)
 			switch {
@@ -552,7 +552,7 @@ func (w *cWorld) runConcurrentFrom(progs [][]cOp, yieldSeed uint64, viaRPC bool,
 				// long enough for other clients to complete whole requests in the window
 				time.Sleep(time.Duration(50+(h>>8)%400) * time.Microsecond)
 			}
-		}
+		})
 	}
 	t0 := time.Now()
 	o := Guard(watchdog, func() {
@@ -598,7 +598,7 @@ func (w *cWorld) runConcurrentFrom(progs [][]cOp, yieldSeed uint64, viaRPC bool,
 		}
 		wg.Wait()
 	})
-	mon.Yield = nil
+	mon.SetYield(nil)
 	run.Duration = time.Since(t0)
 	if o.Hung {
 		run.Hung, run.Dump = true, o.Stack
